@@ -13,6 +13,10 @@ Proof. vm_compute. reflexivity. Qed.
 Lemma gen_save_order : gen_save_order_ok = true.
 Proof. vm_compute. reflexivity. Qed.
 
+(* both save functions: only temp-file steps, the temp file complete, then one rename as the last step *)
+Lemma gen_steps_safe : steps_safe gen_save_steps_v3 = true /\ steps_safe gen_save_steps_quant = true.
+Proof. split; vm_compute; reflexivity. Qed.
+
 Lemma le_val_bytes_4 x : x < 2 ^ 32 ->
   le_val [x mod 256; x / 256 mod 256; x / 256 / 256 mod 256; x / 256 / 256 / 256 mod 256] = x.
 Proof.
